@@ -7,6 +7,7 @@ import random
 from hypothesis import strategies as st
 
 from vlib import build, gen, refsem, wellformed
+from vlib.env import cirbo_core
 from vlib.runner import Violation
 
 HOST_TYPES = list(refsem.NARY) * 2 + ['NOT', 'IFF', 'GT', 'LT', 'GEQ', 'LEQ', 'ALWAYS_TRUE', 'ALWAYS_FALSE']
@@ -51,6 +52,8 @@ def resolve_operands(nl, picks, count=None):
             if labs[k] in out:
                 return None
             out.append(labs[k])
+    if picks.get('absent_at') is not None and out:
+        out[picks['absent_at'] % len(out)] = '__no_such_gate__'
     zero = next((g[0] for g in nl['gates'] if g[1] == 'ALWAYS_FALSE' and not g[2]), None)
     if picks.get('zeros') and picks['repeat'] and zero is not None and out:
         start, length = picks['zeros']
@@ -246,5 +249,55 @@ def with_label_collisions(inner, every=6):
         info2 = inner(dict(case, host=host2))
         info2.setdefault('cls', set()).add('host_holds_predicted_labels')
         return info2
+
+    return check
+
+
+def spoil(circ):
+    """What the owner of a generated circuit may do with it: add a gate on top, keep only that as output."""
+    core = cirbo_core()
+    labs = list(circ.gates)
+    if labs:
+        circ.emplace_gate('__owner_added__', core.gate.NOT, (labs[-1],))
+        circ.set_outputs(['__owner_added__'])
+    else:
+        circ.emplace_gate('__owner_added__', core.gate.ALWAYS_TRUE, ())
+        circ.set_outputs(['__owner_added__'])
+
+
+def fresh(call, again):
+    """call() -> a generated circuit.  With `again` the call is made twice and the first result is changed by its owner in
+    between: a generator hands out a new circuit every time it is asked."""
+    if again:
+        try:
+            spoil(call())
+        except Exception:  # noqa  (the first call is not the subject; the second one is checked in full)
+            pass
+    return call()
+
+
+def with_refused_prelude(inner, every=5):
+    """Wraps a check on a host circuit: one case in `every` is preceded by the same call with ONE operand label that
+    does not exist - a call the library has to refuse (whatever it answers is ignored here, it runs on a host of its
+    own).  The call that follows is an ordinary one and is checked in full: what a refused call leaves behind in the
+    process (class-level or module-level state) must not reach it."""
+    import copy
+
+    def check(case):
+        if case.get('host') and (case.get('uuid_seed', 0) // 7) % every == 0:
+            bad = copy.deepcopy(case)
+            keys = [k for k in ('b', 'a', 'ops', 'p2', 'p1') if isinstance(bad.get(k), dict) and 'idx' in bad[k]]
+            if keys:
+                bad[keys[0]]['absent_at'] = 1 + bad.get('uuid_seed', 0) % 5
+                bad['alias'] = None
+                try:
+                    inner(bad)
+                except BaseException as e:  # noqa
+                    if isinstance(e, KeyboardInterrupt):
+                        raise
+                info = inner(case)
+                info.setdefault('cls', set()).add('after_refused_call')
+                return info
+        return inner(case)
 
     return check
